@@ -1,5 +1,6 @@
 import SlipVerif.Model.History
 import SlipVerif.Lemmas.History
+import SlipVerif.Lemmas.HistoryExt
 /-
   C20 — REPL history, stash and settings persist intact across restarts and crashes.
   Property theorems about SlipVerif.Model.History (the model the correspondence harness
@@ -146,6 +147,64 @@ theorem no_adjacent_duplicates (fs0 : FS) (limit : Nat) (h0 : TermFS fs0) (evs :
     (hok : ∀ e ∈ evs, EventOK e) (hstart : NoAdj (load fs0)) (hout : ∀ e ∈ evs, OuterClears e) :
     NoAdj ((boot limit fs0).run fixed evs).mem.forms :=
   run_noAdj evs (boot limit fs0) (boot_inv limit fs0 h0) hstart hok hout
+
+/-! ## extension round: acknowledged entries, any number of process deaths -/
+
+/-- `acknowledged_not_lost`: a form that is in the history with `d` forms after it stays there through
+ANY sequence of Adds, process deaths at any file-system step of any Add, restarts and limit settings
+(every limit in effect = `L`, no `Clear`), as long as fewer than `L` forms were entered after it:
+`d + (number of Adds, completed or interrupted) < L`. It is also in what the next start loads. However
+many process deaths happen, only entries older than the `L` most recent can disappear. -/
+theorem acknowledged_not_lost (L : Nat) (w : World) (hinv : Inv w) (hlim : w.mem.limit = L) (g : Form) (d : Nat)
+    (hg : Within g d w.mem.forms) (evs : List Event) (hok : ∀ e ∈ evs, EventOK e)
+    (hnc : ∀ e ∈ evs, NoClear e) (hL : ∀ e ∈ evs, LimitIs L e) (hcount : d + addCount evs < L) :
+    g ∈ (w.run fixed evs).mem.forms ∧ g ∈ load (w.run fixed evs).fs := by
+  have h := (run_within L g evs w d hinv hlim hok hnc hL hg hcount).mem
+  exact ⟨h, by rw [(run_inv evs w hinv hok).sync]; exact h⟩
+
+/-- `acknowledged_add_survives`: once `Add f` has returned (limit `L > 0`, `f` inside the guard), `f` is
+in the history and in every later restart's load until `L` further forms have been handed to `Add` —
+whatever process deaths (at any step, any number, also during compactions) and restarts happen in
+between. -/
+theorem acknowledged_add_survives (w : World) (hinv : Inv w) (f : Form) (hf : storable f = true)
+    (hpos : 0 < w.mem.limit) (evs : List Event) (hok : ∀ e ∈ evs, EventOK e)
+    (hnc : ∀ e ∈ evs, NoClear e) (hL : ∀ e ∈ evs, LimitIs w.mem.limit e) (hcount : addCount evs < w.mem.limit) :
+    f ∈ ((w.apply fixed (.op (.add f))).run fixed evs).mem.forms ∧
+    f ∈ load ((w.apply fixed (.op (.add f))).run fixed evs).fs := by
+  have hop : OpOK (.add f) := Or.inr hf
+  have hinv' := op_inv w hinv (.add f) hop
+  have hlim' : (w.apply fixed (.op (.add f))).mem.limit = w.mem.limit := perform_limit fixed w.mem (.add f)
+  have hlast : (w.apply fixed (.op (.add f))).mem.forms.getLast? = some f :=
+    perform_add_last fixed w.mem f (by omega) (storable_not_empty f hf)
+  exact acknowledged_not_lost w.mem.limit _ hinv' hlim' f 0 (within_last _ f hlast) evs hok hnc hL (by omega)
+
+example : NoClear (.crash (.add ["(x)".toList]) 2 10) ∧ LimitIs 10 (.crash (.add ["(x)".toList]) 2 10) ∧
+    addCount [.crash (.add ["(x)".toList]) 2 10, .restart 10, .op (.add ["(y)".toList])] = 2 := by
+  refine ⟨trivial, rfl, by decide⟩
+
+/-! ## extension round: the call pattern of every operation -/
+
+/-- `steps_follow_call_patterns`: the file-system steps of every history operation are none at all or
+follow one of three call patterns — compaction `open tmp (truncating), write*, close, rename tmp → file`,
+append `open file (appending), write, close`, rewrite `open file (truncating), write*, close` — and every
+stash operation the append or the rewrite pattern. Theorems/GenC20.lean states that the call paths
+extracted from History.Add/Clear and Stash.Add/Clear are exactly these patterns, so the crash
+theorems above talk about the call order the code really has (close before rename included). -/
+theorem steps_follow_call_patterns (h : Hist) (forms : List Form) :
+    (∀ o, (perform fixed h o).2 = [] ∨ (match o with
+      | .add _ => matchPat compactPat (perform fixed h o).2 = true ∨ matchPat appendPat (perform fixed h o).2 = true
+      | .clear _ _ => matchPat rewritePat (perform fixed h o).2 = true
+      | .setLimit _ => False)) ∧
+    (∀ o, (sperform forms o).2 = [] ∨ (match o with
+      | .add _ => matchPat appendPat (sperform forms o).2 = true
+      | .clear _ _ => matchPat rewritePat (sperform forms o).2 = true)) :=
+  ⟨perform_pattern h, sperform_pattern forms⟩
+
+/-- the patterns discriminate: a rename before the close, or a compaction written in place, is not
+the compaction pattern -/
+example : matchPat compactPat [.openTrunc .tmp, .write .tmp [], .rename .tmp .hist, .close .tmp] = false := by decide
+example : matchPat compactPat [.openTrunc .hist, .write .hist [], .close .hist] = false := by decide
+example : matchPat compactPat (perform fixed ⟨[["a".toList]], 1⟩ (.add ["b".toList])).2 = true := by decide
 
 /-! ## the precondition on the initial directory is decidable -/
 
